@@ -673,6 +673,21 @@ fn first_diff(a: &[u8], b: &[u8]) -> String {
 }
 
 pub fn judge_builder(trace: &BuilderTrace, mut stats: Option<&mut Stats>) -> Option<Violation> {
+    // Isolated verdict first (pristine-flagged histories): it is a function of the trace alone, so a
+    // violation found here reads the same in the batch process, in the minimiser and in a replay.
+    // State the code under test keeps process-wide (lazily filled tables, "first time only"
+    // latches) is shared by every builder of THIS process, fresh ones included, and this process
+    // has a past; so one child process runs the whole history on one builder, another runs the
+    // last operation on a fresh builder; both start pristine.
+    if trace.pristine_reference && !trace.ops.is_empty() {
+        if let Some(st) = stats.as_deref_mut() {
+            st.probe("c12_pristine_process_reference");
+            st.oracle_evals += 1;
+        }
+        if let Some(v) = isolated_verdict(trace) {
+            return Some(v);
+        }
+    }
     let mut long = MessageBuilder::new();
     let mut sig = Digest::new();
     // abstract builder state: (has_run, last outcome class, last written extent class)
@@ -905,21 +920,6 @@ pub fn judge_builder(trace: &BuilderTrace, mut stats: Option<&mut Stats>) -> Opt
         };
         last_class = outcome_class;
         has_run = true;
-    }
-    // pristine-process reference for the last operation. State the code under test keeps
-    // process-wide (lazily filled tables, "first time only" latches) is shared by every builder
-    // of THIS process, fresh ones included, and this process has a past. So the verdict is
-    // computed in isolation: one child process runs the whole history on one builder, another
-    // runs the last operation on a fresh builder; both start pristine, and the verdict is a
-    // function of the trace alone (replayable, minimisable).
-    if trace.pristine_reference && last_got.is_some() {
-        evals += 1;
-        if let Some(st) = stats.as_deref_mut() {
-            st.probe("c12_pristine_process_reference");
-        }
-        if let Some(v) = isolated_verdict(trace) {
-            return Some(v);
-        }
     }
     if let Some(st) = stats {
         st.oracle_evals += evals;
